@@ -9,6 +9,7 @@ package blocktree
 import (
 	"fmt"
 	"sort"
+	"sync"
 
 	"github.com/ChainSafe/gossamer/dot/types"
 	"github.com/ChainSafe/gossamer/lib/common"
@@ -40,6 +41,26 @@ func c15PreDigest(label int, primary bool) types.Digest {
 // c15Header is the header of the block with the given label: its content is a function of
 // (label, parent hash, number, mark) only, hence so is its hash.
 func c15Header(label int, parentHash common.Hash, number uint, primary bool) *types.Header {
+	key := c15HeaderKey{label, parentHash, number, primary}
+	if h, ok := c15HeaderCache.Load(key); ok {
+		return h.(*types.Header)
+	}
+	h := c15BuildHeader(label, parentHash, number, primary)
+	c15HeaderCache.Store(key, h)
+	return h
+}
+
+type c15HeaderKey struct {
+	label   int
+	parent  common.Hash
+	number  uint
+	primary bool
+}
+
+// headers are immutable once their hash is cached, so they are shared between histories
+var c15HeaderCache sync.Map
+
+func c15BuildHeader(label int, parentHash common.Hash, number uint, primary bool) *types.Header {
 	h := &types.Header{
 		ParentHash: parentHash,
 		Number:     number,
